@@ -1,5 +1,5 @@
 """components.py — kinds of correspondence a property check is assembled from."""
-import json, os, shutil, time
+import hashlib, json, os, shutil, time
 from core import *
 
 class Ctx:
@@ -197,3 +197,39 @@ class Sched:
             print("  ", t, file=sys.stderr if quiet else sys.stdout)
         print("problems:", probs, file=sys.stderr if quiet else sys.stdout)
         return {"f": 0 if probs else None}
+
+class RaceRun:
+    """C11 obligation 1, failing-input search: a workload under the Go race detector; a race report is the replay"""
+    kind = "race"
+    name = "racerun"
+    def __init__(self, quick_s=1.5, thorough_s=20):
+        self.quick_s, self.thorough_s = quick_s, thorough_s
+    def run(self, ctx):
+        env = dict(GOENV, CGO_ENABLED="1")
+        tag = hashlib.sha1(REPO.encode()).hexdigest()[:10]
+        bdir = os.path.join(BUILD, "go-" + tag)
+        go_build("seqdiff")   # makes sure the modfile exists
+        binp = os.path.join(bdir, "racerun")
+        with Lock("go-" + tag):
+            rc, out = sh(["go", "build", "-race", "-modfile=" + os.path.join(bdir, "go.mod"), "-o", binp, "./cmd/racerun"], cwd=os.path.join(VERIF, "harness"), env=env, timeout=1800)
+        res = {"name": self.name, "kind": self.kind, "evaluations": 0, "distinct_nontrivial": 0, "traces_validated": 0, "samples": [], "stats": {}, "k_bad": [], "f_bad": []}
+        if rc != 0:
+            raise BuildError("racerun does not build with -race:\n" + out[-2000:])
+        secs = (self.quick_s if ctx.tier == "quick" else self.thorough_s) * (3 if ctx.scale > 1 else 1)
+        rc, out = sh([binp, "-dur", "%dms" % int(secs * 1000), "-seed", str(ctx.seed)], env=dict(env, GORACE="halt_on_error=1 exitcode=66"), timeout=600)
+        res["evaluations"] = 1; res["distinct_nontrivial"] = 1
+        res["stats"] = {"seconds": secs, "exit": rc}
+        if "WARNING: DATA RACE" in out or rc == 66:
+            res["f_bad"].append({"component": self.name, "kind": "spec-violation", "seed": ctx.seed, "what": "the Go race detector reports a data race under concurrent traffic / reconfiguration / diagnostics",
+                                 "race_report": out[:6000], "signature": None})
+        elif rc != 0:
+            res["f_bad"].append({"component": self.name, "kind": "spec-violation", "seed": ctx.seed, "what": "the concurrent workload crashed (panic or fatal error)", "race_report": out[-4000:], "signature": None})
+        else:
+            res["traces_validated"] = 1
+            res["samples"] = [{"workload": "4 traffic goroutines (Execute/Go, all outcome kinds) + circuit/opener/closer/tracker SetConfigThreadSafe + OpenCircuit/CloseCircuit + Config/IsOpen/Var/stats readers", "seconds": secs, "result": "no race report"}]
+        return res
+    def replay(self, item, ctx, quiet=False):
+        r = self.run(ctx)
+        import sys
+        print((r["f_bad"][0]["race_report"] if r["f_bad"] else "no race report this time (races are schedule dependent)"), file=sys.stderr if quiet else sys.stdout)
+        return {"f": 0 if r["f_bad"] else None}
